@@ -479,7 +479,9 @@ def envStep (s : St) : EnvOp → St
     | none => s
   | .peerClose i =>
     match s.clients i with
-    | some c => { s with clients := upd s.clients i (some { c with peerClosed := true }) }
+    | some c =>
+      -- only socket-pair peers close in the correspondence runs (a TCP peer's FIN/RST timing is not modelled)
+      if c.unix then { s with clients := upd s.clients i (some { c with peerClosed := true }) } else s
     | none => s
   | .dial i =>
     match s.listeners i with
